@@ -267,7 +267,11 @@ func ptr(v any) string {
 
 // value of a slice (a re-allocated backing array with the same content is not a change of value)
 func sliceState[T any](s []T) string {
-	return fmt.Sprintf("nil=%v len=%d %q", s == nil, len(s), fmt.Sprint(s))
+	el := make([]string, len(s)) // element by element: an element that became "" shows
+	for i, v := range s {
+		el[i] = fmt.Sprint(v)
+	}
+	return fmt.Sprintf("nil=%v len=%d %q", s == nil, len(s), el)
 }
 
 func (s snapshot) addClient(name string, c *http.Client) {
